@@ -860,6 +860,7 @@ spifconf_parse_line(FILE * fp, spif_charptr_t buff)
     register unsigned long i = 0;
     unsigned char id;
     void *state = NULL;
+    spif_charptr_t directive;
 
     ASSERT(buff != NULL);
 
@@ -882,7 +883,9 @@ spifconf_parse_line(FILE * fp, spif_charptr_t buff)
       case '\0':
           SPIFCONF_PARSE_RET();
       case '%':
-          if (!BEG_STRCASECMP(spiftool_get_pword(1, buff + 1), "include ")) {
+          /* A lone '%' has no directive word at all. */
+          directive = spiftool_get_pword(1, buff + 1);
+          if (directive && !BEG_STRCASECMP(directive, "include ")) {
               spif_charptr_t path;
               FILE *fp;
 
@@ -894,7 +897,7 @@ spifconf_parse_line(FILE * fp, spif_charptr_t buff)
               } else {
                   file_push(fp, path, NULL, 1, 0);
               }
-          } else if (!BEG_STRCASECMP(spiftool_get_pword(1, buff + 1), "preproc ")) {
+          } else if (directive && !BEG_STRCASECMP(directive, "preproc ")) {
               spif_char_t cmd[PATH_MAX], fname[PATH_MAX];
               spif_charptr_t outfile;
               int fd;
